@@ -121,6 +121,9 @@ pub fn check_diff(input: &[u8], obs: &mut Obs) -> Result<Verdict, Failure> {
             obs.label("noncanonical-rejected");
         }
         (Verdict::Accept(f, used), RefVerdict::Accept(rf, rused)) => {
+            // the reserved bit 7 of a response function code is ignored by the decoder (0x82 is
+            // read like 0x02, see C09); the comparison is made on the normalised code
+            let rf = &rf.normalised();
             ensure!(
                 f == rf && used == rused,
                 "accept-differs",
@@ -197,7 +200,15 @@ pub fn gen_valid_frame(t: &mut Tape) -> Vec<u8> {
                 sa: t.below(128) as u8,
                 dsap: hd.then(|| t.u8()),
                 ssap: hs.then(|| t.u8()),
-                fc: ref_fc_byte(fc_by_index(t.below(N_FC))),
+                fc: {
+                    let fc = ref_fc_byte(fc_by_index(t.below(N_FC)));
+                    // now and then the reserved bit 7 of a response code is set on the wire
+                    if !rc::fc_is_request(fc) && t.chance(1, 8) {
+                        fc | 0x80
+                    } else {
+                        fc
+                    }
+                },
                 pdu: {
                     let kind = t.below(4);
                     match kind {
